@@ -226,7 +226,7 @@ def de_correspondence(ctx, res, by, qs, items, dd, st):
     if not hyp:
         raise vlib.HarnessError("C02_members_are_accepted: the shrunk corpus environment does not satisfy de_envb")
     for (qi, text, real), c in zip(inst, codes):
-        key = {0: "thm_outside_hypotheses", 1: "thm_member_accepted", 2: "thm_member_rejected", 3: "thm_not_a_member"}[c]
+        key = {0: "thm_outside_hypotheses", 1: "thm_member_accepted", 2: "thm_member_rejected", 3: "thm_not_a_member", 4: "thm_member_leaf_misfit"}[c]
         st[key] = st.get(key, 0) + 1
         if c == 2:
             raise vlib.HarnessError("C02_members_are_accepted contradicted by evaluation: %s <- %s" % (C.rust_ty(qs[qi]), text))
